@@ -127,7 +127,7 @@ static bool gen_c13(uint64_t seed, const std::string &tier, uint64_t i, Plan &p)
     std::string local = "user1" + (ext.empty() ? std::string() : "-" + ext); if (r.chance(0.1)) local = "us\"er 1\n" + ext;
     d.set("ext", ext).set("dash", dash).set("local", local).set("host", r.pick(std::vector<std::string>{"l.example", "a.b.c.example", "host", "ho\nst.example"}));
     d.set("sender", r.pick(std::vector<std::string>{"s@x.example", "", "#@[]", "a b@x.example", "new\nline@x.example", "q\"uote@x.example"}));
-    std::string msg = "Subject: t\n"; if (r.chance(0.2)) msg += "Delivered-To: " + local + "@" + d.gets("host") + "\n"; if (r.chance(0.1)) msg += "delivered-to: " + local + "@l.example\n"; msg += "\nbody\n"; if (r.chance(0.1)) msg += "Delivered-To: " + local + "@l.example\n";
+    std::string msg = "Subject: t\n"; if (r.chance(0.25)) { std::string self = local + "@" + d.gets("host"); if (r.chance(0.8)) for (auto &c : self) if (c == '\n') c = '_';   /* the form qmail-local itself writes: newlines scrubbed */ msg += "Delivered-To: " + self + "\n"; } if (r.chance(0.1)) msg += "delivered-to: " + local + "@l.example\n"; msg += "\nbody\n"; if (r.chance(0.1)) msg += "Delivered-To: " + local + "@l.example\n";
     d.set("msg", msg).set("aliasempty", r.pick(std::vector<std::string>{"./Mailbox", "./Maildir/", "|exit 0", "&dflt@r.example"})).set("n", r.chance(0.15)).set("wait", true);
     p.ops.push(d);
   }
